@@ -202,8 +202,18 @@ def _conv_wrappers():
         if isinstance(s, SStr):
             return s.encode("ascii")
         return K.str_to_bascii(s)
+    def consteq(left, right):
+        """passlib.utils.consteq: same kind of string required, then plain equality (timing is not modelled)"""
+        ls, rs = isinstance(left, (str, SStr)), isinstance(right, (str, SStr))
+        lb, rb = isinstance(left, (bytes, SBytes)), isinstance(right, (bytes, SBytes))
+        if not ((ls and rs) or (lb and rb)):
+            raise TypeError
+        if isinstance(left, (SStr, SBytes)) or isinstance(right, (SStr, SBytes)):
+            r = (SStr.lift(left) == SStr.lift(right)) if ls else (SBytes.lift(left) == SBytes.lift(right))
+            return r
+        return U.consteq(left, right)
     out = {U.to_unicode: to_unicode, U.to_bytes: to_bytes, U.to_native_str: to_native_str, U.join_unicode: join_unicode,
-           U.join_bytes: join_bytes}
+           U.join_bytes: join_bytes, U.consteq: consteq}
     for nm, f in (("bascii_to_str", bascii_to_str), ("str_to_bascii", str_to_bascii)):
         if hasattr(K, nm):
             out[getattr(K, nm)] = f
@@ -313,9 +323,9 @@ def env_triples(H):
     out += class_triples(base)
     # the generic renderers join their parts with str.join (C level): route through the join hook
     from .instrument import instrument as _instr
-    for fn in ("render_mc2", "render_mc3"):
+    for fn in ("render_mc2", "render_mc3", "parse_mc2", "parse_mc3", "parse_int"):
         try:
-            newf, _ = _instr(getattr(uh, fn), opts=("join", "fstr", "fmt"))
+            newf, _ = _instr(getattr(uh, fn), opts=("join", "fstr", "fmt", "in"))
             out.append((uh, fn, newf))
         except Exception:
             pass
@@ -329,7 +339,7 @@ def env_triples(H):
             if (attr in ("from_string", "parse", "to_string", "_get_config") or attr.startswith("_parse_")) and (k, attr) not in done:
                 done.add((k, attr))
                 try:
-                    out.append(instrument_attr(k, attr, opts=("fmt", "fstr", "idx", "join")))
+                    out.append(instrument_attr(k, attr, opts=("fmt", "fstr", "idx", "join", "in")))
                 except Exception:
                     pass
     # binary.py's own C-level codecs
